@@ -117,8 +117,8 @@ func ruleGate(c *Ctx, rule string, fn *ssa.Function, inj *ssa.Call, clockOnly bo
 		c.Ok(rule, "partials more than one round ahead of the clock never reach the aggregator", pos, g, "every path to the injection has packet round <= NextRound(clock)")
 		// and the reject edge returns an error
 		rej := edgesWhere(fn, func(cond ssa.Value, truth bool) bool {
-			b, ok := cond.(*ssa.BinOp)
-			return ok && truth && b.Op == token.GTR && pathOf(b.X) == pn+".Round" && b.Y == next
+			lo, hi, strict, ok := ordForm(cond, truth)
+			return ok && strict && pathOf(hi) == pn+".Round" && stripConv(lo) == next // next < round
 		})
 		okr := len(rej) > 0
 		for _, e := range rej {
